@@ -15,7 +15,7 @@ Fixpoint assoc_z {X} (k : Z) (m : list (Z * X)) : option X :=
   end.
 
 (* mapper styles of the harness *)
-Inductive mstyle := MNone | MHarness | MDoc.
+Inductive mstyle := MNone | MHarness | MDoc | MFs.
 
 (* --- the harness' serialize mapper (callback or method of a derived class):
    str data is left alone, other data adds the members recorded in [payload]
@@ -68,25 +68,48 @@ Definition deser_doc (hashes : list (Z * Z)) (idx : nat) (d : dict) : res dval :
       end
   end.
 
+(* FileSystemTree.deserialize_mapper (fs.py): a directory if "d" is present, else a file from
+   data["n"], data["s"], data["m"]; repr() and hash of the rebuilt FileSystemEntry are facts of the run *)
+Definition k_d := t_ "d"%string.
+Definition k_s := t_ "s"%string.
+Definition k_m := t_ "m"%string.
+Definition name_at (names : list (Z * text)) (idx : nat) : text :=
+  match assoc_z (Z.of_nat idx) names with Some n => n | None => [] end.
+Definition deser_fs (names : list (Z * text)) (hashes : list (Z * Z)) (idx : nat) (d : dict) : res dval :=
+  let ok := Ok (DV false (name_at names idx) (hash_at hashes idx)) in
+  match dget k_d d with
+  | Some _ => match dget k_n d with Some _ => ok | None => Err EKey end
+  | None => match dget k_n d with
+            | None => Err EKey
+            | Some _ => match dget k_s d with
+                        | None => Err EKey
+                        | Some _ => match dget k_m d with Some _ => ok | None => Err EKey end
+                        end
+            end
+  end.
+
 Definition shash_tab (tab : list (text * Z)) (s : text) : Z :=
   match assoc_t s tab with Some h => h | None => 0%Z end.
 
-Definition deser_of (m : mstyle) (c : cls) (shash : text -> Z) (hashes : list (Z * Z)) : nat -> dict -> res dval :=
+Definition deser_of (m : mstyle) (c : cls) (shash : text -> Z) (hashes : list (Z * Z)) (names : list (Z * text))
+  : nat -> dict -> res dval :=
   match m with
   | MNone => default_deser c shash
   | MHarness => deser_tab shash hashes
   | MDoc => deser_doc hashes
+  | MFs => deser_fs names hashes
   end.
 
 (* storage options of one save *)
 Record sopts := SO { so_cls : cls; so_ms : mstyle; so_ko : kopt; so_vo : vopt; so_meta : dict;
                      so_payload : list (Z * dict) }.
 (* environment facts of one load *)
-Record lenv := LE { le_cls : cls; le_ms : mstyle; le_shash : list (text * Z); le_hashes : list (Z * Z) }.
+Record lenv := LE { le_cls : cls; le_ms : mstyle; le_shash : list (text * Z); le_hashes : list (Z * Z);
+                    le_names : list (Z * text) }.
 
 Definition m_save (o : sopts) (f : forest) : res jv :=
   save_doc (so_cls o) (ser_of (so_ms o) (so_payload o)) (so_ko o) (so_vo o) (so_meta o) f.
 Definition m_layout (o : sopts) (f : forest) : jv :=
   layout_doc (so_cls o) (ser_of (so_ms o) (so_payload o)) (so_ko o) (so_vo o) (so_meta o) f.
 Definition m_load (e : lenv) (j : jv) : res (dict * forest) :=
-  load_doc (le_cls e) (deser_of (le_ms e) (le_cls e) (shash_tab (le_shash e)) (le_hashes e)) (shash_tab (le_shash e)) j.
+  load_doc (le_cls e) (deser_of (le_ms e) (le_cls e) (shash_tab (le_shash e)) (le_hashes e) (le_names e)) (shash_tab (le_shash e)) j.
